@@ -182,3 +182,24 @@ UGLY_FCH1 = [6e9, 6095.214842353016e6, 8421.38671875e6, 1.42040575e9, 1501.46484
 
 def pick(rng, seq):
     return seq[int(rng.integers(len(seq)))]
+
+
+def mix(i, salt):
+    """64-bit mix of a case index and a salt (splitmix-style)."""
+    z = (i * 0x9E3779B97F4A7C15 + salt * 0xBF58476D1CE4E5B9 + 0x632BE59BD9B4E019) & 0xFFFFFFFFFFFFFFFF
+    z ^= z >> 31
+    z = (z * 0x94D049BB133111EB) & 0xFFFFFFFFFFFFFFFF
+    z ^= z >> 29
+    z = (z * 0xD6E8FEB86659FD93) & 0xFFFFFFFFFFFFFFFF
+    z ^= z >> 32
+    return z
+
+
+def stratum(i, salt, seq):
+    """Deterministic, balanced-in-the-large choice of a discrete stratum for case i that is DE-CORRELATED from every other
+    stratum taken with a different salt.  Plain modular counters (i % 2, (i // 3) % 2, ...) alias with each other: two binary
+    strata with the same period never meet in two of their four combinations, and whole families of inputs are silently never
+    generated (found with tools/strata_audit.py; see DESIGN.md 10)."""
+    if isinstance(seq, int):
+        return mix(i, salt) % seq
+    return seq[mix(i, salt) % len(seq)]
